@@ -316,7 +316,9 @@ macro_rules! elem_heap {
                 $t(<vtypes::Tracked as vtypes::Probe>::make(serial))
             }
             fn serial(&self) -> u64 {
-                vtypes::Probe::ident(&self.0)
+                // reading the payload too makes a use after free visible to Miri / memcheck
+                let _ = vtypes::Probe::ident(&self.0);
+                self.0.serial()
             }
         }
     };
